@@ -11,6 +11,8 @@ package server
 // equal those recovered from the pre-compaction image.
 
 import (
+	"time"
+
 	"github.com/snower/slock/protocol"
 )
 
@@ -164,5 +166,110 @@ func vfH_C16_renamefail() {
 	after, ok2 := vfRecover(dir)
 	vfAssert(ok2, "C16: the directory left behind cannot be recovered")
 	vfAssert(vfSameRecovered(before, after), "C16: inputs removed before rewrite.aof.tmp is renamed: the directory recovers to a different state")
+	vfReach("end")
+}
+
+// C16_update: terms of a persisted hold changed after the fact (LOCK with the update flag:
+// a new expiry, and optionally Count/Rcount), server time then advances by dt before the
+// log is compacted.  Recovery from the compacted directory must give the same holds WITH
+// the same deadlines and terms as recovery from the directory it replaced.
+func init() { vfHarnesses["C16_update"] = vfH_C16_update }
+
+type vfRecTerms struct {
+	n        int
+	ids      [4][16]byte
+	depth    [4]uint8
+	deadline [4]int64
+	count    [4]uint16
+	rcount   [4]uint8
+}
+
+func vfRecoverTerms(dir string, now int64, key [16]byte) (vfRecTerms, bool) {
+	var out vfRecTerms
+	env := vfNewEnv(0)
+	vfSetDBTime(env.db, now)
+	aof := env.slock.aof
+	aof.dataDir = dir
+	appendFiles, rewriteFile, err := aof.FindAofFiles()
+	if err != nil {
+		return out, false
+	}
+	var files []string
+	if rewriteFile != "" {
+		files = append(files, rewriteFile)
+	}
+	files = append(files, appendFiles...)
+	lerr, _ := aof.LoadAofFiles(files, now, func(filename string, aofFile *AofFile, lock *AofLock, firstLock bool) (bool, error) {
+		return true, aof.LoadLock(lock)
+	})
+	if lerr != nil {
+		return out, false
+	}
+	vfDrainAof(env.db)
+	for _, l := range vfHolders(env.manager(key)) {
+		if out.n < 4 {
+			out.ids[out.n], out.depth[out.n], out.deadline[out.n] = l.command.LockId, l.locked, l.expriedTime
+			out.count[out.n], out.rcount[out.n] = l.command.Count, l.command.Rcount
+			out.n++
+		}
+	}
+	return out, true
+}
+
+func vfH_C16_update() {
+	dir := vfFSDir()
+	env := vfNewEnv(1)
+	// the compaction reads the wall clock for its "already expired" filter: the executor's clock is set
+	// to the server time below; a native replay cannot set the clock, so there server time starts at the wall clock
+	base := vfBaseTime
+	if !vfSymbolic() {
+		base = time.Now().Unix()
+	}
+	vfSetDBTime(env.db, base)
+	vfOpenAof(env, dir)
+	key := vfKey(5)
+	minute := vfBool("minute")
+	eflag := uint16(0x0100) // persisted at once
+	if minute {
+		eflag |= protocol.EXPRIED_FLAG_MINUTE_TIME
+	}
+	c := env.newCmd(protocol.COMMAND_LOCK, key, vfLockId(5))
+	c.Expried, c.ExpriedFlag, c.Count, c.Rcount = 100, eflag, 0, 0
+	env.lock(0, c)
+	vfDrainAof(env.db)
+	// one second later the holder changes its terms
+	vfSetDBTime(env.db, base+1)
+	u := env.newCmd(protocol.COMMAND_LOCK, key, vfLockId(5))
+	u.Flag = protocol.LOCK_FLAG_UPDATE_WHEN_LOCKED
+	u.Expried, u.ExpriedFlag = uint16(200+vfChoice("e2", 2)*100), eflag
+	if vfBool("count2") {
+		u.Count = 3
+	}
+	n := len(env.replies)
+	env.lock(0, u)
+	vfAssert(len(env.replies) == n+1, "C16: harness: the update was not answered")
+	vfDrainAof(env.db)
+	env.slock.aof.Flush()
+	// time passes before the log is compacted
+	dt := [4]int64{0, 1, 3, 70}[vfChoice("dt", 4)]
+	now := base + 1 + dt
+	vfSetDBTime(env.db, now)
+	vfSetClock(now, 0)
+	env.slock.aof.aofGlock.Lock()
+	_ = env.slock.aof.RewriteAofFile(false)
+	env.slock.aof.aofGlock.Unlock()
+	vfDropSpawned()
+	before, ok := vfRecoverTerms(dir, now, key)
+	vfAssert(ok, "C16: recovery from the pre-compaction directory fails")
+	vfAssert(before.n == 1, "C16: harness: the updated hold is not recovered from the pre-compaction directory")
+	env.slock.aof.rewriteAofFiles()
+	after, ok2 := vfRecoverTerms(dir, now, key)
+	vfAssert(ok2, "C16: recovery from the compacted directory fails")
+	vfAssert(after.n == before.n, "C16: compaction changed the number of holds recovered")
+	for i := 0; i < before.n && i < after.n; i++ {
+		vfAssert(after.ids[i] == before.ids[i] && after.depth[i] == before.depth[i], "C16: compaction changed which hold is recovered")
+		vfAssert(after.deadline[i] == before.deadline[i], "C16: compaction changed the deadline a hold is recovered with")
+		vfAssert(after.count[i] == before.count[i] && after.rcount[i] == before.rcount[i], "C16: compaction changed the terms a hold is recovered with")
+	}
 	vfReach("end")
 }
